@@ -1242,7 +1242,7 @@ func capRun(e *Env) {
 			}
 			// unrelated traffic interleaved
 			l.SendLine(":irc.sim NOTICE * :*** Looking up your hostname")
-			l.SendLine(":irc.sim CAP "+capID()+" LS :" + joinCaps(advertised))
+			l.SendLine(":irc.sim CAP " + capID() + " LS :" + joinCaps(advertised))
 			var reqs [][]string
 			if len(inter) == 0 {
 				ln, ok := nextLine()
@@ -1299,7 +1299,7 @@ func capRun(e *Env) {
 						}
 					}
 					if reply == 1 {
-						l.SendLine(":irc.sim CAP "+capID()+" NAK :" + joinCaps(caps))
+						l.SendLine(":irc.sim CAP " + capID() + " NAK :" + joinCaps(caps))
 						ln, ok := nextLine()
 						e.Check()
 						if !ok || ln != "CAP END" {
@@ -1333,7 +1333,7 @@ func capRun(e *Env) {
 							return
 						}
 					}
-					l.SendLine(":irc.sim CAP "+capID()+" ACK :" + joinCaps(caps))
+					l.SendLine(":irc.sim CAP " + capID() + " ACK :" + joinCaps(caps))
 					for _, cp := range caps {
 						enabled[cp] = true
 					}
@@ -1404,7 +1404,7 @@ func capRun(e *Env) {
 			l.SendLine(":irc.sim 001 me :Welcome me!u@h")
 			if laterDisable && reply == 0 && len(inter) > 0 {
 				cp := inter[g.S.Choose(len(inter))]
-				l.SendLine(":irc.sim CAP "+capID()+" ACK :-" + cp)
+				l.SendLine(":irc.sim CAP " + capID() + " ACK :-" + cp)
 				enabled[cp] = false
 				e.S.Count("probe.later-ack-disables-capability")
 				// an acknowledgement that takes a capability away starts nothing,
@@ -1421,7 +1421,7 @@ func capRun(e *Env) {
 					if g.S.Choose(2) == 0 {
 						again = strings.Join(inter, " ")
 					}
-					l.SendLine(":irc.sim CAP "+capID()+" ACK :" + again)
+					l.SendLine(":irc.sim CAP " + capID() + " ACK :" + again)
 					enabled[cp] = true
 					e.S.Count("probe.later-ack-enables-capability-again")
 					ln, ok := nextLine()
@@ -1464,7 +1464,7 @@ func capRun(e *Env) {
 				cp := inter[g.S.Choose(len(inter))]
 				nak := []string{cp, "-" + cp, cp + " never-mentioned", strings.Join(inter, " ")}[g.S.Choose(4)]
 				e.S.Count("probe.later-nak-names-a-held-capability")
-				l.SendLine(":irc.sim CAP "+capID()+" NAK :" + nak)
+				l.SendLine(":irc.sim CAP " + capID() + " NAK :" + nak)
 				ln, ok := nextLine()
 				e.Check()
 				if !ok || ln != "CAP END" {
